@@ -429,6 +429,7 @@ def run(cs, log, ctx):
 
         # ---- real managers (master's view), checked against the model
         managers = []
+        derived = []     # managers obtained from in-memory exports, kept alive
         for mi, m in enumerate(mm):
             opm = hyruns.OptionManager(m.name, **copy.deepcopy(m.context))
             # history on the same manager object before its final build:
@@ -456,22 +457,66 @@ def run(cs, log, ctx):
                             f"{pm.kwargs()}: {why}: "
                             f"{short(plain(list(opm.tasks)), 300)}", "rebuild")
                     ctx.hit("probe.manager_rebuilt")
-                    if cs.flip(f"prev{h}.rt", 30):
+                    for (dm, dmm, how) in derived:
+                        why = same_manager(dm, dmm)
+                        if why:
+                            raise Violation(
+                                "derived_manager_changed",
+                                f"a manager obtained by from_dict ({how}) "
+                                f"changed when the manager it was exported "
+                                f"from was built again: {why}", "rebuild")
+                    rt = cs.weighted(f"prev{h}.rt", [(None, 5), ("json", 2),
+                                                     ("raw_keep", 3)])
+                    if rt == "json":
                         opm = hyruns.OptionManager.from_dict(
                             json.loads(json.dumps(opm.to_dict())))
                         opm.name = m.name
                         log.ev("continue_from_dict", mi)
+                    elif rt == "raw_keep":
+                        # in-memory export/import; both managers live on
+                        snapd = opm.to_dict()
+                        derived.append((hyruns.OptionManager.from_dict(snapd),
+                                        pm, "in-memory dictionary"))
+                        log.ev("derive_from_dict", mi)
+                        ctx.hit("probe.derived_manager_kept_alive")
             try:
                 opm.from_cartesian_product(**copy.deepcopy(m.kwargs()))
             except Exception as e:
                 raise Violation("from_cartesian_product_raised",
                                 f"{m.kwargs()} raised {e!r}", "build")
+            for (dm, dmm, how) in derived:
+                why = same_manager(dm, dmm)
+                if why:
+                    raise Violation(
+                        "derived_manager_changed",
+                        f"a manager obtained by from_dict ({how}) changed when "
+                        f"the manager it was exported from was built again: "
+                        f"{why}", "build")
             why = same_manager(opm, m)
             if why:
                 raise Violation("enumeration_wrong",
                                 f"from_cartesian_product({m.kwargs()}): {why}: "
                                 f"{short(plain(list(opm.tasks)), 300)}", "build")
             managers.append((opm, m))
+        with cs.span("keynames2"):
+            # the registry may also be changed while managers are alive (still
+            # before anything is exported): renames and resets
+            for j in range(cs.weighted("nkeyops2", [(0, 5), (1, 3), (2, 2)])):
+                if cs.flip(f"kreset{j}", 40):
+                    hyruns.reset_dict_keyname()
+                    log.ev("keyname.reset(after build)")
+                    ctx.hit("probe.keynames_reset_while_managers_alive")
+                    continue
+                key = cs.choice(f"kkey{j}", KEYS)
+                name = cs.choice(f"kname{j}", NAMEPOOL)
+                cur = dict(hyruns._DICT_KEYNAMES)
+                cur[key] = name
+                if cur["context_name"] in (cur["manager_options_name"],
+                                           cur["task_options_name"]):
+                    continue
+                hyruns.set_dict_keyname(key, name)
+                log.ev("keyname.set(after build)", key, name)
+                ctx.hit("probe.keynames_changed_while_managers_alive")
         with cs.span("seq"):
             sequential_part(cs, log, ctx, hyruns, managers)
             check_tasks_and_find(cs, managers[0][0], mm[0], "master manager",
